@@ -168,6 +168,8 @@ def p_abs(itp, name, args, kw, node, st):
     if n is None:
         return mk(itp, 'abs', v)
     r = n.copy(cplx=False, rv=True, nonneg=True)
+    if n.q is not None and n.q != 'any':
+        r.q = Aff(0)
     if not n.zero and n.log is None:
         r.deg['g'] = F(0)
         r.deg['gy'] = F(0)
@@ -191,6 +193,8 @@ def p_conj(itp, name, args, kw, node, st):
     if n is None:
         return mk(itp, 'conj', v)
     r = n.copy()
+    from . import charge as Q
+    r.q = Q.q_neg(n.q)
     r.mirror = not n.mirror
     if n.log is None and not n.zero:
         r.deg['g'] = dneg(n.deg['g'])
@@ -227,6 +231,12 @@ def p_sum(itp, name, args, kw, node, st):
                 num_add(itp, n, s0, node, 'add')
     r = n.copy()
     r.ex = None
+    if itp.d4:
+        from . import charge as Q
+        if Q.is_lin(n.q):
+            itp.conflict('add', 'q', 'sum over elements whose modulation charge depends on the index (%s): a missing/extra '
+                         'conjugate or a wrong index in the summand' % Q.show(n.q), node)
+            r.q = None
     if n.shape is None:
         r.shape = None if (axis is not None and not (isinstance(axis, Const) and axis.v is None)) else ()
     elif axis is None or (isinstance(axis, Const) and axis.v is None):
@@ -378,6 +388,11 @@ def p_same(itp, name, args, kw, node, st):
             return Opaque('list')
         return mk(itp, name, v)
     r = n.copy()
+    if itp.d4 and name in ('builtins.reversed', 'numpy.flipud', 'numpy.flip'):
+        from . import charge as Q
+        if Q.is_lin(n.q):
+            ln = n.shape[0] if (n.shape and len(n.shape) == 1) else None
+            r.q = Q.q_slice(n.q, ln - 1, -1) if ln is not None else None
     if n.seg is not None and (n.shape is None or len(n.shape) == 1):
         from . import segmap
         if name in ('builtins.reversed', 'numpy.flipud', 'numpy.flip'):
@@ -587,7 +602,9 @@ def p_zeros(itp, name, args, kw, node, st):
         shape = _shape_from(args[0])
         dt = arg(args, kw, 1, 'dtype')
         cplx = _dtype_cplx(dt, False)
-    r = Num(zero_deg(), shape, cplx, zero=base.startswith(('zeros', 'empty')), taint=taints(args[0]))
+    # the *contents* of a fresh buffer depend on nothing; a dependence on its size is carried by the shape itself
+    r = Num(zero_deg(), shape, cplx, zero=base.startswith(('zeros', 'empty')), taint=frozenset())
+    r.q = 'any' if r.zero else Aff(0)
     r.nonneg = True
     itp.events.append(('alloc', node, base, shape, taints(args[0])))
     return r
@@ -602,6 +619,7 @@ def p_arange(itp, name, args, kw, node, st):
         lo, hi = a[0], a[1]
     n = (hi - lo) if (lo is not None and hi is not None and len(args) <= 2) else None
     r = Num(zero_deg(), (n,), False, taint=taints(*args))
+    r.q = Aff(0)
     r.nonneg = lo is not None and bool(lo.nonneg())
     if lo is not None and (len(args) <= 2):
         r.org = -lo          # index of the element whose value is 0 (value = lo + index)
@@ -685,6 +703,8 @@ def p_transpose(itp, name, args, kw, node, st):
         r.seg = list(n.seg)
         r.segax = len(n.shape) - 1 - n.segax
     r.view_of = n.view_of
+    if n.shape is not None and len(n.shape) == 2:
+        r.tr = not n.tr
     return r
 
 
@@ -723,6 +743,19 @@ def p_insert(itp, name, args, kw, node, st):
     r.ex = None
     r.taint = taints(*args)
     r.cplx = None if (a.cplx is None or v.cplx is None) else (a.cplx or v.cplx)
+    if itp.d4:
+        from . import charge as Q
+        r.q = None
+        pos = _int_aff(args[1])
+        if a.q is not None and v.q is not None and v.shape == () and pos is not None and pos.is_const() and pos.c == 0:
+            if Q.is_lin(a.q):
+                new = Q.lin(a.q[1], a.q[2] - Aff(a.q[1]))
+                if Q.q_same(itp, Q.q_index(new, Aff(0)), v.q, node, 'concat') is not None or v.q == 'any':
+                    r.q = new
+            elif a.q == 'any':
+                r.q = None
+            else:
+                r.q = Q.q_same(itp, a.q, v.q, node, 'concat')
     itp.events.append(('insert', node, args[1], a.shape, v, a, itp.cur.qname if itp.cur else ''))
     return r
 
@@ -748,6 +781,25 @@ def p_concat(itp, name, args, kw, node, st):
         r = n.copy() if r is None else num_add(itp, r, n, node, 'concat')
     r = r.copy(shape=(total,), taint=taints(*parts))
     r.ex = None
+    if itp.d4:
+        from . import charge as Q
+        off = Aff(0)
+        cur = 'any'
+        for p in parts:
+            n = N(p)
+            pq = n.q
+            if pq is None or off is None:
+                cur = None
+                break
+            if pq != 'any':
+                if Q.is_lin(pq):
+                    pq = Q.lin(pq[1], pq[2] - off.scale(pq[1]))
+                cur = Q.q_same(itp, cur, pq, node, 'concat')
+                if cur is None:
+                    break
+            ln = Aff(1) if n.shape == () else (n.shape[0] if n.shape else None)
+            off = (off + ln) if ln is not None else None
+        r.q = cur if cur != 'any' else 'any'
     segs = [p.seg if isinstance(p, Num) else None for p in parts]
     if all(sg is not None for sg in segs):
         from . import segmap
@@ -875,6 +927,14 @@ def p_bilinear(itp, name, args, kw, node, st):
         b = p_conj(itp, 'numpy.conj', [b], {}, node, st)
     r = num_mul(itp, a, b, node)
     r.ex = None
+    if itp.d4:
+        from . import charge as Q
+        if base in ('dot', 'vdot', 'inner') and a.shape is not None and b.shape is not None and len(a.shape) == 1 and len(b.shape) == 1:
+            if Q.is_lin(r.q):
+                itp.conflict('add', 'q', 'inner product over elements whose modulation charge depends on the index (%s)' % Q.show(r.q), node)
+                r.q = None
+        elif base not in ('multiply',):
+            r.q = None
     sa, sb = a.shape, b.shape
     if base in ('dot', 'inner', 'vdot'):
         if sa is None or sb is None:
@@ -941,6 +1001,9 @@ def p_fft(itp, name, args, kw, node, st):
         r.shape = None
     r.taint = a.taint | taints(nlen, axis)
     itp.events.append(('fft', node, base, a.shape, nlen, ax, a))
+    if itp.d4:
+        itp.events.append(('fft-q', node, a.q, itp.cur.qname if itp.cur else ''))
+    r.q = None
     if r.shape is not None and ax is not None and len(r.shape) >= 1 and base in ('fft', 'rfft'):
         from . import segmap
         i = ax % len(r.shape)
@@ -1005,11 +1068,12 @@ def p_solve(itp, name, args, kw, node, st):
     A = args[0]
     if name.endswith('cho_solve'):
         A = A.items[0] if isinstance(A, Tup) else A
-        itp.events.append(('cho_solve', node, args[0]))
+        itp.events.append(('cho_solve', node, args[0], A.uid if isinstance(A, Num) else None))
     A, b = N(A), N(args[1])
     if A is None or b is None:
         return mk(itp, 'solve', *args)
     x = num_mul(itp, b, A, node, div=True)
+    itp.events.append(('solve', node, name, A.base_uid if A.base_uid is not None else A.uid, A.tr, A.mirror, b.uid, x))
     if name.endswith('cho_solve'):
         x = num_mul(itp, x, A, node, div=True)
     x.shape = b.shape
@@ -1024,7 +1088,10 @@ def p_cholesky(itp, name, args, kw, node, st):
         return mk(itp, 'cholesky', *args)
     r = num_pow(itp, A, N(Const(0.5)), node)
     r.shape = A.shape
-    itp.events.append(('cholesky', node, name, kw.get('lower')))
+    r.base_uid = None
+    r.tr = False
+    r.mirror = False
+    itp.events.append(('cholesky', node, name, kw.get('lower'), r))
     return r
 
 
